@@ -29,6 +29,11 @@ def py_lex(text):
     except LexerError as e:
         c = e.context[-1]
         out.append('#error %d:%d' % (c.line, c.col))
+    except RecursionError:
+        out.append('#recursion')
+    except Exception as e:
+        # anything but a LexerError escaping the lexer is a failure of the implementation (C10/C12), never of the harness
+        out.append('#internal %s: %s' % (type(e).__name__, str(e)[:80]))
     return out
 
 
@@ -78,11 +83,13 @@ def gen_lexeme(rng):
         for _ in range(rng.randint(0, 6)):
             k = rng.random()
             if k < 0.5: body += rng.choice('ab zé中\U0001F30E;/\'')
-            elif k < 0.8: body += '\\' + rng.choice(['n', 't', 'r', '0', 'a', 'b', 'f', '\\', '"', "'", 'x41', 'xfF', 'x0', 'u{1F30E}', 'u{e9}', 'u{110000}',
-                                                      'u{D800}', 'u{}', 'u{12', 'q', 'x١٢'])
+            elif k < 0.8: body += '\\' + rng.choice(['n', 't', 'r', '0', 'a', 'b', 'f', '\\', '"', "'", 'x41', 'xfF', 'x00', 'x0', 'u{1F30E}', 'u{e9}', 'u{110000}',
+                                                      'u{D800}', 'u{}', 'u{12', 'q', 'x١٢', 'u{0}',
+                                                      'x%02x' % rng.randrange(256), 'x%02X' % rng.randrange(256), 'u{%x}' % rng.randrange(0x3000),
+                                                      'u{%X}' % rng.getrandbits(rng.choice([8, 16, 20, 21, 24, 31, 32, 33, 63, 64, 65, 100, 400]))])
             else: body += rng.choice(['//', ' ', '\t'])
         return '"' + body + ('"' if rng.random() < 0.9 else '')
-    c = rng.choice(['a', ' ', '"', '\\n', "\\'", '\\\\', '\\x7f', '\\xff', '\\u{41}', 'é', '', "'", '\\q', 'ab', '\\0', '\\u{e9}'])
+    c = rng.choice(['a', ' ', '"', '\\n', "\\'", '\\\\', '\\x7f', '\\xff', '\\u{41}', 'é', '', "'", '\\q', 'ab', '\\0', '\\u{e9}', '\\x00', '\\u{0}', '\\x%02x' % rng.randrange(256)])
     return "'" + c + ("'" if rng.random() < 0.9 else '')
 
 
@@ -112,6 +119,11 @@ def lex_suite(ctx, n, extra_texts=()):
             kk = l.split(' ')[1] if not l.startswith('#') else l.split(' ')[0]
             kinds[kk] = kinds.get(kk, 0) + 1
         if want != got: bad.append((k, t, want, got))
+        if want and want[-1].startswith('#internal'):
+            internal = ctx.stats.setdefault('lexer_internal_exceptions', 0)
+            ctx.stats['lexer_internal_exceptions'] = internal + 1
+            if internal < 2:
+                ctx.violations.append(dict(what='the lexer let an internal exception escape: ' + want[-1], kind='LEX-INTERNAL', source=t, args=[], config={}))
     ctx.stats['lex_correspondence'] = dict(texts=len(texts), mismatches=len(bad), token_kinds=kinds)
     if bad:
         k, t, want, got = bad[0]
@@ -185,6 +197,11 @@ def py_parse(text):
     except (LexerError, ParserError) as e:
         c = e.context[-1].start
         return '%s %d:%d' % (type(e).__name__, c.line, c.col)
+    except RecursionError:
+        return 'recursion'
+    except Exception as e:
+        # an internal exception escaping the implementation is a result to compare, not a harness failure
+        return 'INTERNAL %s: %s' % (type(e).__name__, str(e)[:80])
 
 
 def model_run(cmd, texts):
@@ -259,6 +276,10 @@ def py_frontend(text, lint=False):
     except (LexerError, ParserError) as e:
         c = e.context[-1].start
         return '%s %d:%d' % (type(e).__name__, c.line, c.col)
+    except RecursionError:
+        return 'recursion'
+    except Exception as e:
+        return 'EXC ' + type(e).__name__
     env = Environment.empty(unreachable_error=lint)
     try:
         prog = parsed.evaluate(env)
@@ -430,3 +451,24 @@ def exit_suite(ctx, texts):
                                detail=repr([(o, r, l[:300]) for o, l, r in bad[:2]])[:1500]))
     ctx.say('exit-mode correspondence: %d functions, %d blocks, %d mismatches' % (len(lines), nblocks, len(bad)))
     return bad
+
+
+# ---------------------------------------------------------------------------------------- empty is not a value
+def empty_value_programs():
+    """every empty-typed expression (user/builtin call of each flavour) in every value position: all must be rejected by the typechecker"""
+    pre = 'empty e2() { }\nempty g(int a) { }\nempty @y2() { }\nempty !d2() { }\n'
+    exprs = {'ord': ['e2()', 'writeln("x")', 'write(1)'], 'you': ['@y2()'], 'def': ['!d2()', '!is_defeat()']}
+    pos = ['return %s;', 'int x = %s;', 'x = %s;', 'write(%s);', 'g(%s);', '[%s];', 'int[] a = [%s];', 'if (%s) { }', 'while (%s) { }', 'for (;%s;) { }',
+           'int a[%s];', 'arr[%s] = 1;', 'arr[0] = %s;', 'int y = %s + 1;', 'bool b = %s == %s;', 'int y = -%s;', 'bool b = not %s;', 'int y = %s is int;',
+           'bool b = %s is bool;', 'int n = %s.length;', 'int n = %s[0];', 'x += %s;', 'bool b = %s and true;', 'bool b = true or %s;', 'int y = (%s);',
+           'byte y = %s is byte;', 'string s = %s is string;', 'const int[] q = %s is int[];']
+    out = []
+    for fl, es in exprs.items():
+        name = {'ord': 'f', 'you': '@f', 'def': '!f'}[fl]
+        call = {'ord': 'f();', 'you': '@f();', 'def': 'try { !f(); } undo { }'}[fl]
+        for e in es:
+            for ret in ('empty', 'int'):
+                for p in pos:
+                    out.append(pre + '%s %s() { int x = 0; int[] arr = [1]; %s%s }\nempty @is_you() { %s }'
+                               % (ret, name, p.replace('%s', e), ' return 1;' if ret == 'int' else '', call))
+    return out
